@@ -501,6 +501,9 @@ def make_cases(rng, tier, A, specs):
             if tier == "quick" and s["name"] in ("prefixed", "unbounded_min", "infeasible") and s not in chosen \
                     and rng.random() < 0.5:
                 chosen.append(s)
+        for s in specs:
+            if s["name"] == "orphan_gene" and "gene" in a and s not in chosen:
+                chosen.append(s)      # the analyses that knock genes out always meet the gene without reactions
         for s in chosen:
             if s["name"].startswith("unbounded") and a in BIG_M:
                 continue          # infinite big-M coefficient: GLPK aborts the process (not a C13 matter)
